@@ -17,6 +17,8 @@ resume_exit_to, exit; started and never-started targets) whose units get generat
 provenance: memory pool, malloc'ed non-default sizes (also not multiples of 64), user
 stacks at 8-byte-aligned addresses with 8-byte-multiple sizes (so that the stack top is
 8 mod 16 half of the time).  Oracle: canaries + the reference interpreter's event order.
+(d) `setmain`: gen/c17.py's stream life-cycle programs (main-scheduler replacement by the
+primary ULT) with canaries on.
 (b) `shared`: 2..3 secondary streams share one or two pools; ULTs in those pools yield,
 suspend (resumed from another stream / the primary ULT / an external thread), join or free
 other ULTs, block on a mutex and on an eventual - every switch returns the ULT to a pool
@@ -194,7 +196,20 @@ def joins(draw, ctx):
 
 
 @st.composite
+def setmain(draw, ctx):
+    """main-scheduler replacement as a context switch: the stream life-cycle programs of
+    gen/c17.py (ABT_xstream_set_main_sched[_basic] by the primary ULT on its own stream and
+    on secondary streams, revive, rank changes) with the canaries switched on"""
+    from gen import c17
+    text = draw(c17.cases(ctx))
+    lines = [l + " canary=1" if l.startswith("cfg ") else l for l in text.splitlines()]
+    return "\n".join(lines) + "\nnote setmain\n"
+
+
+@st.composite
 def cases(draw, ctx):
+    if ctx.get("variant") == "setmain":
+        return draw(setmain(ctx))
     if ctx.get("variant") == "joins":
         return draw(joins(ctx))
     if ctx.get("variant") == "shared":
@@ -211,7 +226,7 @@ def judge(text, res, ctx):
 
 
 def classify(text, res, ctx):
-    out = ["chains" if "note chains" in text else "shared"]
+    out = ["chains" if "note chains" in text else "setmain" if "note setmain" in text else "shared"]
     for k in ("directed_switches", "create_to", "exits", "stream_hops", "suspends", "stack_checks",
               "join_before_end"):
         if stat(res, k):
@@ -226,6 +241,8 @@ def classify(text, res, ctx):
 
 
 def nontrivial(text, res, ctx):
+    if "note setmain" in text:
+        return "setmain 0" in text and stat(res, "canary_ops") >= 5
     if "note chains" in text:
         return stat(res, "directed_switches") + stat(res, "create_to") >= 4 and "stackkind=" in text
     return stat(res, "stream_hops") >= 1 and stat(res, "canary_ops") >= 20
@@ -235,9 +252,10 @@ PLAN = {
     "quick": [("coarse", 3, 400, "chains"), ("san", 2, 150, "chains"), ("native", 1, 300, "chains"),
               ("coarse", 5, 300, "shared"), ("fine", 3, 150, "shared"), ("san", 1, 100, "shared"),
               ("native", 1, 200, "shared"), ("coarse", 3, 300, "joins"), ("fine", 2, 150, "joins"),
-              ("native", 1, 200, "joins")],
+              ("native", 1, 200, "joins"), ("coarse", 2, 200, "setmain"), ("native", 1, 100, "setmain")],
     "thorough": [("coarse", 3, 8000, "chains"), ("fine", 1, 2000, "chains"), ("san", 2, 3000, "chains"),
                  ("native", 1, 5000, "chains"), ("coarse", 6, 8000, "shared"), ("fine", 6, 4000, "shared"),
                  ("san", 2, 2000, "shared"), ("native", 2, 5000, "shared"),
-                 ("coarse", 4, 8000, "joins"), ("fine", 3, 4000, "joins"), ("native", 2, 5000, "joins")],
+                 ("coarse", 4, 8000, "joins"), ("fine", 3, 4000, "joins"), ("native", 2, 5000, "joins"),
+                 ("coarse", 2, 3000, "setmain"), ("native", 1, 1000, "setmain")],
 }
